@@ -43,7 +43,7 @@ man = {
                  "kind_free_text": "Python runtime-monitoring harness: in-place call monitors (contracts) on cryoCAT functions, sys.monitoring line/branch observers, seeded stratified workload generators, independent byte/SO(3)/brute-force oracles, sharded subprocess runner with watchdog, three-valued verdicts"}],
     "checks": checks,
     "not_applicable": na,
-    "notes": "All checks import cryoCAT from /repo's working tree at run time. exit 0 held on observed / 1 VIOLATION / 2 INCONCLUSIVE. KNOWN_FINDINGS.txt lists fixed and open findings; selftest/run_mutants.py and seeded/ hold the property-breaking changes the checks were validated against.",
+    "notes": "All checks import cryoCAT from /repo's working tree at run time. exit 0 held on observed / 1 VIOLATION / 2 INCONCLUSIVE. KNOWN_FINDINGS.txt lists fixed and open findings; selftest/run_mutants.py and seeded/ hold the property-breaking changes the checks were validated against (hand-written mutants; 350+ changes written by independent sub-agents, each confirmed on a scratch copy and by literal git apply on /repo), controls/ holds 80 independently written property-PRESERVING changes on which every check must stay silent (tools/control_eval.py), tools/audit_call_structure.sh re-runs the checks with monitors blind to cryoCAT-internal calls (no verdict may depend on cryoCAT's call structure).",
 }
 json.dump(man, open(os.path.join(VERIF, "MANIFEST.json"), "w"), indent=1)
 import subprocess
